@@ -218,6 +218,8 @@ pub struct Tick {
     pub reloads_sent: usize,
     pub mode: String,
     pub quality_enabled: bool,
+    /// open file descriptors of this process when the tick was observed
+    pub fds: usize,
 }
 
 impl LinkTick {
@@ -611,7 +613,7 @@ pub fn run(sc: &Scenario) -> Result<Trace, &'static str> {
                     Some(l) if l.share_weak() => run2 + 1,
                     _ => 0,
                 };
-                trace.push(Tick { n, at: ctl.now(), links: lt, reloads_sent: next_reload, mode: data["mode"].as_str().unwrap_or("").to_string(), quality_enabled: data["quality_enabled"].as_bool().unwrap_or(false) });
+                trace.push(Tick { n, at: ctl.now(), links: lt, reloads_sent: next_reload, mode: data["mode"].as_str().unwrap_or("").to_string(), quality_enabled: data["quality_enabled"].as_bool().unwrap_or(false), fds: std::fs::read_dir("/proc/self/fd").map(|d| d.count()).unwrap_or(0) });
                 for (t, k, v) in &sc.cfg {
                     if *t == n {
                         match k {
@@ -1265,6 +1267,29 @@ pub fn monitors_cfg(trace: &Trace, sc: &Scenario, mon: &mut crate::Mon) {
             }
         }
     }
+    // C08 "retries continue indefinitely": a retry may not cost a descriptor. Among snapshots with the same number of
+    // uplinks, the number of open descriptors of the process does not grow with the number of socket re-creations
+    // (a re-created socket replaces the old one; its reader task goes with it)
+    if sc.reloads.is_empty() && trace.ticks.len() > 8 {
+        let base = trace.ticks[5].fds;
+        let (worst_n, worst) = trace.ticks.iter().skip(5).map(|t| (t.n, t.fds)).max_by_key(|x| x.1).unwrap_or((0, base));
+        let growth = worst.saturating_sub(base);
+        let recreations: usize = {
+            // a new source port on an uplink = a re-created socket
+            let mut ports: std::collections::BTreeMap<u8, std::collections::BTreeSet<u16>> = Default::default();
+            for e in &trace.rx {
+                ports.entry(e.link).or_default().insert(e.port);
+            }
+            ports.values().map(|p| p.len().saturating_sub(1)).sum()
+        };
+        mon.count(&format!("e2e-fd-growth-{}", growth.min(9)));
+        if recreations >= 4 {
+            mon.count("e2e-scenario-with-4+-recreations");
+            if growth >= 4 && growth + 1 >= recreations {
+                mon.fail("C08", "e2e-descriptors-grow-with-retries", format!("real event loop [{what}]: the process held {base} descriptors at tick 6 and {worst} at tick {worst_n} with the same uplink list; uplink sockets were re-created {recreations} times in between - every retry leaves a descriptor behind, so retries cannot continue indefinitely"));
+            }
+        }
+    }
     // C19: a reload whose file is fully parsable is applied - within three ticks of the SIGHUP the loop's uplink
     // set is exactly the file's address set (every address of these scenarios is bindable here), survivors first
     // in their old order; whatever else is going on (registration in progress, a receiver restart, a black-hole)
@@ -1313,6 +1338,11 @@ pub fn generate_e2e(rng: &mut crate::Rng) -> Scenario {
             let from2 = rng.range(24, 34) as usize;
             bh.push((rng.range(1, n as u64) as u8, from2, from2 + rng.range(2, 10) as usize));
         }
+    }
+    if rng.chance(1, 8) {
+        // one long outage: many paced retries
+        bh.clear();
+        bh.push((rng.range(1, n as u64) as u8, rng.range(6, 12) as usize, ticks));
     }
     let forget = if bh.is_empty() && rng.chance(1, 2) { rng.range(10, 25) as usize } else { 0 };
     let mut reloads = Vec::new();
